@@ -45,21 +45,48 @@ def mkCmp (l : PT) (ops : List (BinOp × PT)) : PT :=
   | [(op, r)] => .bin op l r
   | _ => .chain l ops
 
+/-- atoms that are single tokens: NUMBER, NAME (not a keyword) -/
+def pyAtomOf : Tok → Option PT
+  | .num s => some (.num s)
+  | .id s => if pyKeywords.contains s then none else some (.id s)
+  | _ => none
+
+/-- a NAME token -/
+def nameOf' : Tok → Option String
+  | .id s => some s
+  | _ => none
+
+/-- `NAME` after a dot -/
+def dotName : List Tok → Option (String × List Tok)
+  | .id s :: r => some (s, r)
+  | _ => none
+
+/- The parser functions are written with non-overlapping matches and `if t = tok` tests only, so
+   that they unfold predictably in the proofs of FfcxProofs/Lemmas/FormatPy*.lean. -/
 mutual
-/-- `test` -/
+/-- `test ::= or_test ["if" or_test "else" test]` -/
 def pyTest : Nat → List Tok → Option (PT × List Tok)
   | 0, _ => none
   | f + 1, ts =>
     match pyLvl f 1 ts with
     | none => none
-    | some (a, .id "if" :: r1) =>
-      match pyLvl f 1 r1 with
-      | some (c, .id "else" :: r2) =>
-        match pyTest f r2 with
-        | some (e, r3) => some (.cond c a e, r3)
-        | none => none
-      | _ => none
-    | some (a, r) => some (a, r)
+    | some (a, r) =>
+      match r with
+      | [] => some (a, [])
+      | t :: r1 =>
+        if t = .id "if" then
+          match pyLvl f 1 r1 with
+          | none => none
+          | some (c, r2) =>
+            match r2 with
+            | [] => none
+            | t2 :: r3 =>
+              if t2 = .id "else" then
+                match pyTest f r3 with
+                | none => none
+                | some (e, r4) => some (.cond c a e, r4)
+              else none
+        else some (a, t :: r1)
 /-- expression whose binary operators all have level ≥ `m` -/
 def pyLvl : Nat → Nat → List Tok → Option (PT × List Tok)
   | 0, _, _ => none
@@ -67,16 +94,18 @@ def pyLvl : Nat → Nat → List Tok → Option (PT × List Tok)
     match pyOperand f m ts with
     | none => none
     | some (l, r) => pyLoop f m l r
+/-- continue with left operand `l`; a comparison collects its whole chain -/
 def pyLoop : Nat → Nat → PT → List Tok → Option (PT × List Tok)
   | 0, _, _, _ => none
   | f + 1, m, l, ts =>
     match ts with
+    | [] => some (l, [])
     | t :: r =>
       match pyBinLevel t with
+      | none => some (l, t :: r)
       | some (op, lv) =>
         if m ≤ lv then
           if lv = 4 then
-            -- comparison: collect the whole chain
             match pyLvl f 5 r with
             | none => none
             | some (rhs, r') =>
@@ -87,102 +116,132 @@ def pyLoop : Nat → Nat → PT → List Tok → Option (PT × List Tok)
             match pyLvl f (lv + 1) r with
             | none => none
             | some (rhs, r') => pyLoop f m (.bin op l rhs) r'
-        else some (l, ts)
-      | none => some (l, ts)
-    | [] => some (l, ts)
+        else some (l, t :: r)
 /-- further `comp_op arith` pairs of a comparison -/
 def pyChain : Nat → List Tok → Option (List (BinOp × PT) × List Tok)
   | 0, _ => none
   | f + 1, ts =>
     match ts with
+    | [] => some ([], [])
     | t :: r =>
       match pyBinLevel t with
-      | some (op, 4) =>
-        match pyLvl f 5 r with
-        | none => none
-        | some (rhs, r') =>
-          match pyChain f r' with
+      | none => some ([], t :: r)
+      | some (op, lv) =>
+        if lv = 4 then
+          match pyLvl f 5 r with
           | none => none
-          | some (more, r'') => some ((op, rhs) :: more, r'')
-      | _ => some ([], ts)
-    | [] => some ([], ts)
-/-- operand at level `m`: `not` only where a not_test may stand, unary minus, primary -/
+          | some (rhs, r') =>
+            match pyChain f r' with
+            | none => none
+            | some (more, r'') => some ((op, rhs) :: more, r'')
+        else some ([], t :: r)
+/-- operand at level `m`: `not` only where a not_test may stand (`m ≤ 3`), unary minus over a
+    factor, parenthesised expression / tuple, list display, atom; then trailers -/
 def pyOperand : Nat → Nat → List Tok → Option (PT × List Tok)
   | 0, _, _ => none
   | f + 1, m, ts =>
     match ts with
-    | .id "not" :: r =>
-      if m ≤ 3 then
-        match pyLvl f 3 r with
-        | some (a, r') => some (.un .not a, r')
+    | [] => none
+    | t :: r =>
+      if t = .id "not" then
+        if m ≤ 3 then
+          match pyLvl f 3 r with
+          | none => none
+          | some (a, r') => some (.un .not a, r')
+        else none
+      else if t = .p .minus then
+        match pyOperand f 7 r with
         | none => none
-      else none
-    | .p .minus :: r =>
-      match pyOperand f 7 r with
-      | some (a, r') => some (.un .neg a, r')
-      | none => none
-    | .num s :: r => pyTrailers f (.num s) r
-    | .id s :: r => if pyKeywords.contains s then none else pyTrailers f (.id s) r
-    | .p .lpar :: .p .rpar :: r => pyTrailers f (.tuple []) r
-    | .p .lpar :: r =>
-      match pyTest f r with
-      | some (e, .p .rpar :: r') => pyTrailers f e r'
-      | some (e, .p .comma :: r') =>
-        match pyItems f .rpar r' with
-        | some (es, r'') => pyTrailers f (.tuple (e :: es)) r''
+        | some (a, r') => some (.un .neg a, r')
+      else if t = .p .lpar then
+        if r.head? = some (.p .rpar) then pyTrailers f (.tuple []) r.tail
+        else
+          match pyTest f r with
+          | none => none
+          | some (e, r2) =>
+            match r2 with
+            | [] => none
+            | t2 :: r3 =>
+              if t2 = .p .rpar then pyTrailers f e r3
+              else if t2 = .p .comma then
+                match pyItems f .rpar r3 with
+                | none => none
+                | some (es, r4) => pyTrailers f (.tuple (e :: es)) r4
+              else none
+      else if t = .p .lbrack then
+        match pyItems f .rbrack r with
         | none => none
-      | _ => none
-    | .p .lbrack :: r =>
-      match pyItems f .rbrack r with
-      | some (es, r') => pyTrailers f (.list es) r'
-      | none => none
-    | _ => none
-/-- items separated by commas up to the closing token (trailing comma allowed; keyword items) -/
+        | some (es, r') => pyTrailers f (.list es) r'
+      else
+        match pyAtomOf t with
+        | none => none
+        | some b => pyTrailers f b r
+/-- items separated by commas up to the closing token (trailing comma allowed) -/
 def pyItems : Nat → P → List Tok → Option (List PT × List Tok)
   | 0, _, _ => none
   | f + 1, close, ts =>
     match ts with
-    | .p q :: r =>
-      if q = close then some ([], r) else pyItem f close ts
-    | _ => pyItem f close ts
+    | [] => none
+    | t :: r => if t = .p close then some ([], r) else pyItem f close (t :: r)
+/-- one item (`test` or `NAME = test`) and what follows it -/
 def pyItem : Nat → P → List Tok → Option (List PT × List Tok)
   | 0, _, _ => none
   | f + 1, close, ts =>
-    let one : Option (PT × List Tok) :=
-      match ts with
-      | .id k :: .p .assign :: r =>
-        match pyTest f r with
-        | some (v, r') => some (.kw k v, r')
-        | none => none
-      | _ => pyTest f ts
-    match one with
-    | some (e, .p .comma :: r) =>
-      match pyItems f close r with
-      | some (es, r') => some (e :: es, r')
-      | none => none
-    | some (e, .p q :: r) => if q = close then some ([e], r) else none
-    | _ => none
+    match pyTest f ts with
+    | none => none
+    | some (e, r) =>
+      match r with
+      | [] => none
+      | t :: r1 =>
+        if t = .p .assign then
+          -- keyword argument: the item read so far must be a plain NAME
+          match nameOf e with
+          | none => none
+          | some k =>
+            match pyTest f r1 with
+            | none => none
+            | some (v, r2) =>
+              match r2 with
+              | [] => none
+              | t2 :: r3 =>
+                if t2 = .p .comma then
+                  match pyItems f close r3 with
+                  | none => none
+                  | some (es, r') => some (.kw k v :: es, r')
+                else if t2 = .p close then some ([.kw k v], r3)
+                else none
+        else if t = .p .comma then
+          match pyItems f close r1 with
+          | none => none
+          | some (es, r') => some (e :: es, r')
+        else if t = .p close then some ([e], r1)
+        else none
+/-- trailers: `.NAME` (merged into a dotted name), `(arglist)` after a name, `[subscripts]` -/
 def pyTrailers : Nat → PT → List Tok → Option (PT × List Tok)
   | 0, _, _ => none
   | f + 1, base, ts =>
     match ts with
-    | .p .dot :: .id s :: r =>
-      match base with
-      | .id b => pyTrailers f (.id (b ++ "." ++ s)) r
-      | _ => none
-    | .p .lpar :: r =>
-      match base with
-      | .id name =>
-        match pyItems f .rpar r with
-        | some (args, r') => pyTrailers f (.call name args) r'
+    | [] => some (base, [])
+    | t :: r =>
+      if t = .p .dot then
+        match dotName r with
         | none => none
-      | _ => none
-    | .p .lbrack :: r =>
-      match pyItems f .rbrack r with
-      | some ([], _) => none
-      | some (ix, r') => pyTrailers f (.idx base ix) r'
-      | none => none
-    | _ => some (base, ts)
+        | some (s, r2) =>
+          match nameOf base with
+          | none => none
+          | some b => pyTrailers f (.id (b ++ "." ++ s)) r2
+      else if t = .p .lpar then
+        match nameOf base with
+        | none => none
+        | some name =>
+          match pyItems f .rpar r with
+          | none => none
+          | some (args, r') => pyTrailers f (.call name args) r'
+      else if t = .p .lbrack then
+        match pyItems f .rbrack r with
+        | none => none
+        | some (ix, r') => if ix.isEmpty then none else pyTrailers f (.idx base ix) r'
+      else some (base, t :: r)
 end
 
 /-- parse a complete Python expression -/
@@ -191,46 +250,69 @@ def parseExprPy (ts : List Tok) : Option PT :=
   | some (e, []) => some e
   | _ => none
 
+/-- `i in range ( lo , hi ) : NEWLINE INDENT` after the keyword `for`: index, bounds, rest -/
+def forHeadPy (ts : List Tok) : Option (String × PT × PT × List Tok) :=
+  match ts with
+  | t1 :: t2 :: t3 :: t4 :: r =>
+    if t2 = .id "in" ∧ t3 = .id "range" ∧ t4 = .p .lpar then
+      match nameOf' t1 with
+      | none => none
+      | some i =>
+        match pyTest (fuelFor r) r with
+        | none => none
+        | some (lo, r1) =>
+          if r1.head? = some (.p .comma) then
+            match pyTest (fuelFor r1.tail) r1.tail with
+            | none => none
+            | some (hi, r2) =>
+              match r2 with
+              | b1 :: b2 :: b3 :: b4 :: r3 =>
+                if b1 = .p .rpar ∧ b2 = .p .colon ∧ b3 = .newline ∧ b4 = .indent then some (i, lo, hi, r3)
+                else none
+              | _ => none
+          else none
+    else none
+  | _ => none
+
+/-- `target = expr NEWLINE` / `target += expr NEWLINE` -/
+def simpleStmtPy (ts : List Tok) : Option (PS × List Tok) :=
+  match pyOperand (fuelFor ts) 7 ts with
+  | none => none
+  | some (lhs, r) =>
+    if r.head? = some (.p .assign) ∨ r.head? = some (.p .plusAssign) then
+      match pyTest (fuelFor r.tail) r.tail with
+      | none => none
+      | some (rhs, r2) =>
+        if r2.head? = some .newline then some (.assign (decide (r.head? = some (.p .plusAssign))) lhs rhs, r2.tail)
+        else none
+    else none
+
 mutual
 def parseStmtPy : Nat → List Tok → Option (PS × List Tok)
   | 0, _ => none
   | f + 1, ts =>
-    match ts with
-    | .id "for" :: .id i :: .id "in" :: .id "range" :: .p .lpar :: r =>
-      match pyTest (fuelFor r) r with
-      | some (lo, .p .comma :: r1) =>
-        match pyTest (fuelFor r1) r1 with
-        | some (hi, .p .rpar :: .p .colon :: .newline :: .indent :: r2) =>
-          match parseStmtsPy f r2 with
-          | some (body, .dedent :: r3) => some (.loop i lo hi body, r3)
-          | _ => none
-        | _ => none
-      | _ => none
-    | _ =>
-      match pyOperand (fuelFor ts) 7 ts with
-      | some (lhs, .p .assign :: r) =>
-        match pyTest (fuelFor r) r with
-        | some (rhs, .newline :: r') => some (.assign false lhs rhs, r')
-        | _ => none
-      | some (lhs, .p .plusAssign :: r) =>
-        match pyTest (fuelFor r) r with
-        | some (rhs, .newline :: r') => some (.assign true lhs rhs, r')
-        | _ => none
-      | _ => none
+    if ts.head? = some (.id "for") then
+      match forHeadPy ts.tail with
+      | none => none
+      | some (i, lo, hi, r2) =>
+        match parseStmtsPy f r2 with
+        | none => none
+        | some (body, r3) => if r3.head? = some .dedent then some (.loop i lo hi body, r3.tail) else none
+    else simpleStmtPy ts
+/-- statements up to (not including) a DEDENT or the end; `pass` is no statement -/
 def parseStmtsPy : Nat → List Tok → Option (List PS × List Tok)
   | 0, _ => none
   | f + 1, ts =>
-    match ts with
-    | [] => some ([], [])
-    | .dedent :: _ => some ([], ts)
-    | .id "pass" :: .newline :: r => parseStmtsPy f r
-    | _ =>
+    if ts = [] then some ([], [])
+    else if ts.head? = some .dedent then some ([], ts)
+    else if ts.head? = some (.id "pass") ∧ ts.tail.head? = some .newline then parseStmtsPy f ts.tail.tail
+    else
       match parseStmtPy f ts with
+      | none => none
       | some (s, r) =>
         match parseStmtsPy f r with
-        | some (ss, r') => some (s :: ss, r')
         | none => none
-      | none => none
+        | some (ss, r') => some (s :: ss, r')
 end
 
 def parseStmtsTopPy (ts : List Tok) : Option (List PS) :=
@@ -279,6 +361,80 @@ def eraseLPy : List Expr → List PT
   | a :: as => erasePy a :: eraseLPy as
 end
 
+/-! ## well-formedness for the numba round trip -/
+
+/-- an identifier that is neither a C nor a Python keyword -/
+def validIdentPy (s : String) : Bool := validIdent s && !pyKeywords.contains s
+
+/-- all characters continue a Python number whose previous character is `last` -/
+def pyNumContAll : Char → List Char → Bool
+  | _, [] => true
+  | last, c :: cs => pyNumCont last c && pyNumContAll c cs
+
+/-- the text lexes as exactly one Python NUMBER: starts with a digit, every character continues
+    it, the last character is a digit or the imaginary suffix `j` -/
+def pyNumShape (cs : List Char) : Bool :=
+  match cs with
+  | [] => false
+  | c :: r => c.isDigit && pyNumContAll c r
+      && (let l := ((c :: r).reverse).headD 'x'; l.isDigit || l == 'j')
+
+def absR (x : Rat) : Rat := if x < 0 then -x else x
+
+/-- magnitude texts of a literal are single NUMBER tokens -/
+def pyLitShapeOK : Expr → Bool
+  | .litF re im false => pyNumShape (reprFloat (absR re)) && decide (im = 0)
+  | .litF re im true =>
+    (decide (re = 0) || pyNumShape (reprPart (absR re))) && pyNumShape (reprPart (absR im) ++ ['j'])
+  | .litI v => pyNumShape (fmtInt (if v < 0 then -v else v))
+  | _ => true
+
+mutual
+/-- Structural well-formedness for the numba round trip: identifiers are identifiers and not
+    Python keywords, n-ary nodes and subscript lists are non-empty, literal texts are NUMBER tokens,
+    `erf` has exactly one argument (the formatter prints `math.erf(args[0])`), a MultiIndex carries
+    the global index its constructor builds (a Sum or an integer literal; the formatter's
+    `isinstance` test for comparisons does not look through a MultiIndex). No typing is needed. -/
+def wfPy : Expr → Bool
+  | .litF re im c => pyLitShapeOK (.litF re im c)
+  | .litI v => pyLitShapeOK (.litI v)
+  | .sym n _ => validIdentPy n
+  | .mi _ _ gi => (match gi with | .sum _ | .litI _ => true | _ => false) && wfPy gi
+  | .neg a => wfPy a
+  | .not a => wfPy a
+  | .bin _ a b => wfPy a && wfPy b
+  | .sum args => !args.isEmpty && wfLPy args
+  | .prod args => !args.isEmpty && wfLPy args
+  | .call f _ args =>
+    validIdentPy (pyMathName f) && (pyMathName f != "erf" || args.length == 1) && wfLPy args
+  | .idx arr _ ix => validIdentPy arr && !ix.isEmpty && wfLPy ix
+  | .cond c t f => wfPy c && wfPy t && wfPy f
+def wfLPy : List Expr → Bool
+  | [] => true
+  | a :: as => wfPy a && wfLPy as
+end
+
+mutual
+/-- no complex literal occurs (Python reads `(1+2j)` as a sum with an imaginary NUMBER, the C
+    normal form `norm` writes it `1 + I * 2`; on all other trees the two normal forms coincide) -/
+def noComplex : Expr → Bool
+  | .litF _ _ c => !c
+  | .litI _ => true
+  | .sym _ _ => true
+  | .mi _ _ gi => noComplex gi
+  | .neg a => noComplex a
+  | .not a => noComplex a
+  | .bin _ a b => noComplex a && noComplex b
+  | .sum args => noComplexL args
+  | .prod args => noComplexL args
+  | .call _ _ args => noComplexL args
+  | .idx _ _ ix => noComplexL ix
+  | .cond c t f => noComplex c && noComplex t && noComplex f
+def noComplexL : List Expr → Bool
+  | [] => true
+  | a :: as => noComplex a && noComplexL as
+end
+
 /-- the executable round-trip checker for numba expressions -/
 def roundtripExprPy (e : Expr) : Bool × Option PT × PT :=
   let got := parseExprPy (lexPyExpr (fmtExprPy e))
@@ -312,6 +468,28 @@ def eraseStmtPy (sc : Scalar) : Stmt → List PS
 def eraseStmtsPy (sc : Scalar) : List Stmt → List PS
   | [] => []
   | s :: ss => eraseStmtPy sc s ++ eraseStmtsPy sc ss
+end
+
+mutual
+/-- Structural well-formedness of statements for the numba round trip (the analogue of `wfS`):
+    assignments have a symbol or an array access on the left; declared names and loop indices are
+    identifiers and not Python keywords; the declared type of an array is not `DataType.NONE`;
+    array initialisers are numeric literals; all expressions are well-formed (`wfPy`). Comment
+    texts and Section names are arbitrary (every line of them gets its own `#`). -/
+def wfSPy (sc : Scalar) : Stmt → Bool
+  | .assign l r => isLvalue l && wfPy l && wfPy r
+  | .addAssign l r => isLvalue l && wfPy l && wfPy r
+  | .vdecl n _ v => validIdentPy n && wfPy v
+  | .adecl n dt _ _ vals =>
+    validIdentPy n && (pyTypeName sc dt).isSome
+      && (match vals with | none => true | some vs => vs.all (fun v => isLit v && wfPy v))
+  | .forRange i lo hi body => validIdentPy i && wfPy lo && wfPy hi && wfSLPy sc body
+  | .comment _ => true
+  | .block ss => wfSLPy sc ss
+  | .sect _ decls stmts _ _ _ => wfSLPy sc decls && wfSLPy sc stmts
+def wfSLPy (sc : Scalar) : List Stmt → Bool
+  | [] => true
+  | s :: ss => wfSPy sc s && wfSLPy sc ss
 end
 
 end Ffcx.LNodes.Fmt
